@@ -211,7 +211,10 @@ class ControlVariates:
         sigma_x = covariance[0:-1, 0:-1]
         sigma_xy = covariance[0:-1, -1]
         try:
-            if np.amin(np.absolute(sigma_x)) < 1e-12:
+            if not (np.all(np.isfinite(sigma_x)) and np.all(np.isfinite(sigma_xy))):
+                # overflowed or undefined samples: no regression (the LAPACK driver may not return on such input)
+                b_star = np.zeros_like(sigma_xy)
+            elif np.amin(np.absolute(sigma_x)) < 1e-12:
                 b_star = np.zeros_like(sigma_xy)
             else:
                 # least-squares solution of sigma_x b = sigma_xy: the covariance matrix of the controls is singular
